@@ -5,7 +5,8 @@ import ast
 import struct
 
 from ..model import ClassInfo, EnumMember, dotted
-from ..values import DictV, show
+from ..interp_expr import truth
+from ..values import ClassV, DictV, ObjV, show
 
 META = {
     'explanation': (
@@ -82,7 +83,7 @@ def check(ctx, report):
         return
     for k, sz in wide:
         report.count('C11.R1', 3)
-        padding_symmetry(report, pf, cf, k, sz)
+        padding_symmetry(ctx, report, pf, cf, k, sz)
         if not range_guard(cf, k):
             report.add('C11.R1', cf.construct + '@narrowing[%d]' % k,
                        'values are packed into %d bytes and cut to %d without a range check: a value >= 2^%d loses its high byte '
@@ -125,9 +126,9 @@ def check(ctx, report):
     pt = method(model, 'ParserBinary', 'parse_timestamp', report)
     if ct is not None:
         report.count('C11.R3')
-        src = ast.unparse(ct.node)
-        if not ('timegm' in src or 'utctimetuple' in src or 'timestamp()' in src):
-            report.add('C11.R3', ct.construct + '@epoch', 'seconds since the epoch are not computed through calendar.timegm/utctimetuple (or an aware .timestamp())')
+        problem = epoch_conversion(ct)
+        if problem:
+            report.add('C11.R3', ct.construct + '@epoch', problem)
     # ---- R4
     pfl = method(model, 'ParserBinary', 'parse_numeric_flags', report)
     cfl = method(model, 'ComposerBinary', 'compose_numeric_flags', report)
@@ -166,27 +167,71 @@ def check(ctx, report):
             cs = ast.unparse(c_sent).replace(' ', '').strip('()')
             if ps != cs:
                 report.add('C11.R5', ct.construct + '@sentinel', 'parser tests %s, composer emits %s' % (ps, cs))
+    report.rule('C11.R6', 'SSH mpint composer and parser tabulated against RFC 4251 over boundary bit lengths, both signs')
+    mpint_pipeline(ctx, report)
     report.floor('C11.R1', 8, 'table/padding obligations')
+    report.floor('C11.R6', 700, 'mpint sample values')
 
 
-def branch_for_order(f, width):
-    """(big-endian statements, other statements) of the ``if item_size == <width>`` block"""
+def epoch_conversion(ct):
+    """the seconds since the epoch must be calendar.timegm(<value>.utctimetuple()) (or timegm of the time tuple of the
+    value converted to UTC with astimezone): timetuple() keeps the local wall clock fields of an aware value, and
+    time.mktime / naive .timestamp() interpret them in the zone of the machine"""
+    calls = [n for n in ast.walk(ct.node) if isinstance(n, ast.Call) and (dotted(n.func) or '').endswith('timegm')]
+    if not calls:
+        return 'seconds since the epoch are not computed through calendar.timegm(value.utctimetuple())'
+    for n in calls:
+        if len(n.args) != 1:
+            return 'calendar.timegm is not applied to one time tuple'
+        a = n.args[0]
+        ok = isinstance(a, ast.Call) and isinstance(a.func, ast.Attribute) and (
+            a.func.attr == 'utctimetuple' or
+            (a.func.attr == 'timetuple' and isinstance(a.func.value, ast.Call) and isinstance(a.func.value.func, ast.Attribute)
+             and a.func.value.func.attr == 'astimezone' and a.func.value.args and 'utc' in ast.unparse(a.func.value.args[0]).lower()))
+        if not ok:
+            return 'calendar.timegm is applied to %s: the fields of a time zone aware value are not converted to UTC first (utctimetuple())' % ast.unparse(a)
+    return None
+
+
+def branch_for_order(ctx, f, width):
+    """{byte order member: statements executed for it} of the ``if item_size == <width>`` block; the per-order test is
+    folded with the analyser's constant propagator for each of the four members (None = not decidable)"""
+    model, it = ctx.model, ctx.interp
+    bo = model.cls('ByteOrder')
     for n in ast.walk(f.node):
         if isinstance(n, ast.If) and isinstance(n.test, ast.Compare) and ast.unparse(n.test.left) == 'item_size' and \
                 isinstance(n.test.comparators[0], ast.Constant) and n.test.comparators[0].value == width:
             for m in n.body:
                 if isinstance(m, ast.If) and 'byte_order' in ast.unparse(m.test):
-                    t = ast.unparse(m.test)
-                    big_first = 'BIG_ENDIAN' in t or 'NETWORK' in t
-                    if isinstance(m.test, ast.Compare) and isinstance(m.test.ops[0], (ast.NotIn, ast.NotEq)):
-                        big_first = not big_first
-                    return (m.body, m.orelse) if big_first else (m.orelse, m.body)
+                    out = {}
+                    for name in bo.enum_members:
+                        fr = it.new_frame(None, f.module, recv=ClassV(f.cls), defcls=f.cls)
+                        fr.quiet = True
+                        fr.env['self'] = ObjV(f.cls, {'byte_order': EnumMember(bo, name)})
+                        out[name] = stmts_for(it, m, fr)
+                    return out
     return None
 
 
-def padding_symmetry(report, pf, cf, k, sz):
-    pb = branch_for_order(pf, k)
-    cb = branch_for_order(cf, k)
+def stmts_for(it, node, fr):
+    """statements an if / elif chain executes under the constant environment of ``fr``"""
+    t = truth(it.eval(node.test, fr))
+    if t is None:
+        return None
+    branch = node.body if t else node.orelse
+    if len(branch) == 1 and isinstance(branch[0], ast.If) and 'byte_order' in ast.unparse(branch[0].test):
+        return stmts_for(it, branch[0], fr)
+    return branch
+
+
+# struct semantics of the four prefixes: '>' and '!' are big-endian; '<' is little-endian; '=' is the byte order of the
+# host, which the analysis takes to be little-endian (the assumption the repository itself makes; stated in the evidence)
+ORDER_KIND = {'BIG_ENDIAN': 'big', 'NETWORK': 'big', 'LITTLE_ENDIAN': 'little', 'NATIVE': 'little'}
+
+
+def padding_symmetry(ctx, report, pf, cf, k, sz):
+    pb = branch_for_order(ctx, pf, k)
+    cb = branch_for_order(ctx, cf, k)
     if pb is None or cb is None:
         report.add('C11.R1', pf.construct + '@padding[%d]' % k, 'width %d uses a %d byte struct code but no per-byte-order padding branch was found on both sides' % (k, sz))
         return
@@ -213,13 +258,19 @@ def padding_symmetry(report, pf, cf, k, sz):
                         return 'back'
         return None
     want = {'big': 'front', 'little': 'back'}
-    got = {'parse': {'big': pad_side(pb[0]), 'little': pad_side(pb[1])}, 'compose': {'big': cut_side(cb[0]), 'little': cut_side(cb[1])}}
-    for side, f in (('parse', pf), ('compose', cf)):
-        for order in ('big', 'little'):
-            if got[side][order] != want[order]:
-                report.add('C11.R1', f.construct + '@padding[%d,%s]' % (k, order),
-                           '%s-endian %d byte integers: the %s must %s %d zero byte(s) at the %s, found %s' % (
-                               order, k, side + 'r', 'add' if side == 'parse' else 'drop', sz - k, want[order], got[side][order]))
+    for side, f, table, fn in (('parse', pf, pb, pad_side), ('compose', cf, cb, cut_side)):
+        for member in sorted(table):
+            report.count('C11.R1')
+            kind = ORDER_KIND.get(member)
+            if kind is None:
+                report.add('C11.R1', f.construct + '@padding[%d,%s]' % (k, member), 'byte order %s is not one of the four struct prefixes the rule knows' % member)
+                continue
+            stmts = table[member]
+            got = fn(stmts) if stmts is not None else 'an undecidable branch'
+            if got != want[kind]:
+                report.add('C11.R1', f.construct + '@padding[%d,%s]' % (k, member),
+                           'ByteOrder.%s (%s-endian) %d byte integers: the %s must %s %d zero byte(s) at the %s, found %s' % (
+                               member, kind, k, side + 'r', 'add' if side == 'parse' else 'drop', sz - k, want[kind], got))
 
 
 def range_guard(cf, k):
@@ -231,3 +282,223 @@ def range_guard(cf, k):
                                  or str(2 ** (8 * k) - 1) in t or '0xffffff' in t.lower()):
                 return True
     return False
+
+
+# ---- R6: SSH mpint pipeline ---------------------------------------------------------------------------
+
+def rfc4251_mpint(v):
+    """RFC 4251 section 5: two's complement, big-endian, minimal, uint32 length prefix"""
+    if v == 0:
+        body = b''
+    else:
+        n = (v.bit_length() + 8) // 8 if v > 0 else ((v + 1).bit_length() + 8) // 8
+        body = v.to_bytes(n, 'big', signed=True)
+    return len(body).to_bytes(4, 'big') + body
+
+
+def mpint_samples():
+    out = {0}
+    for b in list(range(1, 140)) + list(range(248, 264)) + list(range(1016, 1034)) + list(range(2040, 2058)) + list(range(4088, 4106)):
+        out.add(1 << (b - 1))            # smallest value with bit length b
+        out.add((1 << b) - 1)            # largest value with bit length b
+        out.add(-(1 << (b - 1)))
+        out.add(-((1 << b) - 1))
+    return sorted(out)
+
+
+class _FakeComposer:
+    def __init__(self):
+        self.composed_bytes = b''
+
+
+class _FakeParser:
+    def __init__(self, data):
+        self.data = bytes(data)
+        self.values = {}
+
+    def __getitem__(self, k):
+        return self.values[k]
+
+
+def compose_mpint_by_ast(cb, value):
+    """bytes compose_ssh_mpint emits for ``value`` under big-endian order, obtained by evaluating the statements of
+    compose_ssh_mpint and _compose_mpint (sa.miniexec); the 4 byte word packing is the primitive decided by R1"""
+    from ..miniexec import Evaluator, Unsupported
+    outer, inner = cb.methods['compose_ssh_mpint'], cb.methods['_compose_mpint']
+    out = []
+
+    def names(name):
+        if name.startswith('ByteOrder.'):
+            return name
+        if name == 'self.byte_order':
+            return 'ByteOrder.BIG_ENDIAN'
+        raise Unsupported('free name %s' % name)
+
+    def inner_hook(n, ev):
+        f = n.func
+        if isinstance(f, ast.Name) and f.id == 'ComposerBinary':
+            return _FakeComposer()
+        if isinstance(f, ast.Attribute) and f.attr == 'compose_numeric_array' and isinstance(ev.ev(f.value), _FakeComposer):
+            comp = ev.ev(f.value)
+            vals, size = ev.ev(n.args[0]), ev.ev(n.args[1])
+            comp.composed_bytes += b''.join(int(x).to_bytes(size, 'big') for x in vals)
+            return None
+        return NotImplemented
+
+    def attr_hook(name):
+        return names(name)
+
+    def outer_hook(n, ev):
+        f = n.func
+        if isinstance(f, ast.Attribute) and isinstance(f.value, ast.Name) and f.value.id == 'self':
+            args = [ev.ev(a) for a in n.args]
+            if f.attr == '_compose_mpint':
+                params = [a.arg for a in inner.node.args.args]
+                sub = Evaluator(dict(zip(params, args)), inner_hook, attr_hook)
+                sub_get = sub.ev
+
+                def ev_attr(node, _orig=sub_get):
+                    return _orig(node)
+                return run_with_attrs(sub, inner.node)
+            if f.attr == 'compose_numeric':
+                out.append(int(args[0]).to_bytes(args[1], 'big'))
+                return None
+            if f.attr == 'compose_raw':
+                out.append(bytes(args[0]))
+                return None
+        return NotImplemented
+    top = Evaluator({'value': value}, outer_hook, attr_hook)
+    run_with_attrs(top, outer.node)
+    return b''.join(out)
+
+
+def run_with_attrs(ev, node):
+    """evaluate a function body; attribute reads on fake objects (composer.composed_bytes) resolve on the object"""
+    from ..miniexec import Evaluator
+    orig = ev.ev
+
+    def ev2(n):
+        if isinstance(n, ast.Attribute) and isinstance(n.value, ast.Name) and n.value.id in ev.env and \
+                isinstance(ev.env[n.value.id], (_FakeComposer, _FakeParser)):
+            return getattr(ev.env[n.value.id], n.attr)
+        return orig(n)
+    ev.ev = ev2
+    return Evaluator.function(ev, node)
+
+
+def parse_mpint_by_ast(pb, data):
+    """value parse_ssh_mpint stores for the encoding ``data`` (length prefix included)"""
+    from ..miniexec import Evaluator, Stop, Unsupported
+    outer, inner = pb.methods['parse_ssh_mpint'], pb.methods['_parse_mpint']
+    state = {'value': None, 'advance': None}
+
+    def attr_hook(name):
+        if name == 'self._parsable':
+            return bytes(data)
+        if name == 'self._parsed_length':
+            return 0
+        if name == 'self.unparsed_length':
+            return len(data)
+        if name == 'int':
+            return int
+        raise Unsupported('free name %s' % name)
+
+    def inner_hook(n, ev):
+        f = n.func
+        d = ast.unparse(f)
+        if d == 'ParserBinary':
+            return _FakeParser(ev.ev(n.args[0]))
+        if d == 'six.int2byte':
+            return bytes([ev.ev(n.args[0])])
+        if isinstance(f, ast.Attribute) and f.attr == 'parse_numeric_array' and isinstance(ev.ev(f.value), _FakeParser):
+            p = ev.ev(f.value)
+            key, num, size = ev.ev(n.args[0]), ev.ev(n.args[1]), ev.ev(n.args[2])
+            if num * size > len(p.data):
+                raise Unsupported('nested parser would run out of data')
+            p.values[key] = [int.from_bytes(p.data[i * size:(i + 1) * size], 'big') for i in range(num)]
+            return None
+        return NotImplemented
+
+    def outer_hook(n, ev):
+        f = n.func
+        d = ast.unparse(f)
+        if d == 'six.indexbytes':
+            return ev.ev(n.args[0])[ev.ev(n.args[1])]
+        if d == 'self._parse_numeric_array':
+            size = ev.ev(n.args[2])
+            return [int.from_bytes(data[:size], 'big')], size
+        if d == 'self._parse_mpint':
+            args = [ev.ev(a) for a in n.args]
+            params = [a.arg for a in inner.node.args.args if a.arg != 'self']
+            sub = Evaluator(dict(zip(params, args)), inner_hook, attr_hook)
+            return run_with_attrs(sub, inner.node)
+        if d == 'NotEnoughData':
+            raise Unsupported('NotEnoughData on a complete encoding')
+        return NotImplemented
+    top = Evaluator({'name': 'v'}, outer_hook, attr_hook)
+    orig_run = top.run
+
+    def run(stmts):
+        for st in stmts:
+            # self._parsed_values[name] = value ; self._parsed_length += ...
+            if isinstance(st, ast.Assign) and ast.unparse(st.targets[0]).startswith('self._parsed_values['):
+                state['value'] = top.ev(st.value)
+            elif isinstance(st, ast.AugAssign) and ast.unparse(st.target) == 'self._parsed_length':
+                state['advance'] = top.ev(st.value)
+            elif isinstance(st, ast.Raise):
+                raise Unsupported('raise on a complete encoding: %s' % ast.unparse(st))
+            else:
+                orig_run([st])
+    top.run = run
+    run_with_attrs(top, outer.node)
+    return state['value'], state['advance']
+
+
+def mpint_pipeline(ctx, report, rule='C11.R6', signs=(1, -1)):
+    from ..miniexec import Unsupported
+    model = ctx.model
+    cb, pb = model.cls('ComposerBinary'), model.cls('ParserBinary')
+    need = [(cb, 'compose_ssh_mpint'), (cb, '_compose_mpint'), (pb, 'parse_ssh_mpint'), (pb, '_parse_mpint')]
+    for c, n in need:
+        if n not in c.methods:
+            report.error('%s: %s.%s vanished' % (rule, c.name, n))
+            return
+        report.touch(c.methods[n])
+    cf, pf = cb.methods['compose_ssh_mpint'], pb.methods['parse_ssh_mpint']
+    bad_c = bad_p = 0
+    for v in mpint_samples():
+        if (v < 0 and -1 not in signs) or (v >= 0 and 1 not in signs):
+            continue
+        report.count(rule)
+        want = rfc4251_mpint(v)
+        try:
+            got = compose_mpint_by_ast(cb, v)
+        except Unsupported as e:
+            report.add(rule, cf.construct + '@tabulation', 'the mpint composer left the integer subset the tabulation understands: %s' % e)
+            return
+        body = got[4:]
+        decoded = int.from_bytes(body, 'big', signed=True) if body else 0
+        if got[:4] != len(body).to_bytes(4, 'big') or decoded != v:
+            bad_c += 1
+            if bad_c <= 3:
+                sign = 'negative' if v < 0 else 'non-negative'
+                report.add(rule, cf.construct + '@value[%s,bits=%d mod 32]' % (sign, abs(v).bit_length() % 32),
+                           'the %d bit %s integer %s.. is composed as %s.. which decodes to a different value (RFC 4251: %s..)' % (
+                               abs(v).bit_length(), sign, hex(v)[:14], got.hex()[:24], want.hex()[:24]))
+        elif v >= 0 and got != want:
+            bad_c += 1
+            if bad_c <= 3:
+                report.add(rule, cf.construct + '@minimal[bits=%d mod 8]' % (v.bit_length() % 8),
+                           'the %d bit integer is composed as %s.., RFC 4251 demands the minimal form %s..' % (v.bit_length(), got.hex()[:24], want.hex()[:24]))
+        try:
+            pv, adv = parse_mpint_by_ast(pb, want)
+        except Unsupported as e:
+            report.add(rule, pf.construct + '@tabulation', 'the mpint parser left the integer subset the tabulation understands: %s' % e)
+            return
+        if pv != v or adv != len(want):
+            bad_p += 1
+            if bad_p <= 3:
+                report.add(rule, pf.construct + '@value[%s,len=%d mod 4]' % ('negative' if v < 0 else 'non-negative', (len(want) - 4) % 4),
+                           'the RFC 4251 encoding %s.. of %s.. is parsed as %s.. (cursor advance %s, encoding has %d bytes)' % (
+                               want.hex()[:24], hex(v)[:14], hex(pv)[:14] if isinstance(pv, int) else pv, adv, len(want)))
+    report.sample({'rule': rule, 'values': len(mpint_samples()), 'bit_lengths': '1..139, 248..263, 1016..1033, 2040..2057, 4088..4105; min and max value of each bit length, both signs'})
